@@ -28,3 +28,27 @@ for name, table in (("limit", [(t[0], t[1], t[2]) for t in limit.TABLE]), ("icc"
         out[name][fp] = {cond: sorted({c.get("deep") for c in have if c.get("deep")}) for cond, have in res.items()}
 json.dump(out, open(os.path.join(V, "tables", "check_deep.json"), "w"), indent=1)
 print({k: sum(len(v) for v in d.values()) for k, d in out.items()})
+
+# the repair-guard registry (rules/fixguards.py): deep forms of its compare / reject entries -> tables/guard_deep.json
+from jxlv.rules import fixguards
+gd = {}
+for props, prefix, kind, text, defect, why in fixguards.TABLE:
+    if kind not in ("compare", "reject"):
+        continue
+    key = "%s|%s|%s:%s" % (defect, prefix.split("::")[-1].rstrip("<"), kind, text)
+    forms = set()
+    neg = {"<": ">=", ">=": "<", ">": "<=", "<=": ">", "==": "!=", "!=": "=="}
+    parts = text.rsplit(" ", 2)
+    alt = validation.norm(parts[0], neg[parts[1]], int(parts[2]) if parts[2].lstrip("-").isdigit() else parts[2]) if len(parts) == 3 else None
+    for f in fixguards.family(ctx.prog, prefix):
+        cs = validation.checks_deep(ctx.prog, f) if kind == "reject" else validation.checks(f, errs=set(range(len(f.blocks))))
+        for c in cs:
+            t = validation.norm(c["subject"], c["op"], c["other"])
+            if t == text or (kind == "compare" and t == alt):
+                if c.get("deep"):
+                    forms.add(c["deep"])
+    gd[key] = sorted(forms)
+    if not forms:
+        print("no deep form for", key)
+json.dump(gd, open(os.path.join(V, "tables", "guard_deep.json"), "w"), indent=1)
+print("guard deep forms:", sum(len(v) for v in gd.values()))
